@@ -204,7 +204,7 @@ def explore(ctx, recipe, rng, real_budget):
 def run_real(ctx, recipe, task, job):
     """Execute the generated job script for real and compare what the task body observed."""
     script = Path(job.path) / f"{job.name}.py"
-    env = {"PATH": os.environ.get("PATH", ""), "HOME": os.environ.get("HOME", "/tmp"), "PYTHONDONTWRITEBYTECODE": "1"}
+    env = {"PATH": os.environ.get("PATH", ""), "HOME": os.environ.get("HOME", "/tmp"), "PYTHONDONTWRITEBYTECODE": "1", "PYTHONPATH": f"{REPO}/src"}
     try:
         pr = subprocess.run([PYTHON, str(script)], env=env, capture_output=True, text=True, timeout=120, cwd="/")
     except subprocess.TimeoutExpired:
